@@ -444,8 +444,11 @@ func (me markerExpr) Eval(extras map[string]bool) bool {
 		return me.left.value < me.right.value
 	case markerOpNotEqual:
 		return me.left.value != me.right.value
-	case markerOpEqualEqual, markerOpEqualEqualEqual:
+	case markerOpEqualEqual:
 		return me.left.value == me.right.value
+	case markerOpEqualEqualEqual:
+		// Arbitrary equality ignores case, as in pip's packaging.
+		return strings.EqualFold(me.left.value, me.right.value)
 	case markerOpGreaterEqual:
 		return me.left.value >= me.right.value
 	case markerOpGreater:
